@@ -134,6 +134,21 @@ def idPairsFromDelta (inp : Input) (δ : Rat) (u : DUnit) (relTol : Rat) (allPai
   | .error e => .error e
   | .ok ps => if ps.isEmpty then .error .filter else .ok ps
 
+/-! ### metrics.RPE: constructor checks + pair selection of `process_data` -/
+
+inductive RErr | metrics | filter deriving Repr, DecidableEq
+
+/-- `RPE.__init__` refuses `delta < 0` and a non-integer `delta` in frames (`MetricsException`),
+stores `int(delta)` for frames; `process_data` selects with `id_pairs_from_delta` and the stored
+`rel_delta_tol` (its `FilterException` propagates) -/
+def rpePairs (inp : Input) (δ : Rat) (u : DUnit) (relTol : Rat) (allPairs : Bool) : Except RErr IdPairs :=
+  if δ < 0 then .error .metrics
+  else if u = .frames ∧ (δ.floor : Rat) ≠ δ then .error .metrics
+  else
+    match idPairsFromDelta inp (if u = .frames then ((toFrames δ : Nat) : Rat) else δ) u relTol allPairs with
+    | .error _ => .error .filter
+    | .ok ps => .ok ps
+
 /-! ### specification vocabulary (used by the theorems, not by the driver) -/
 
 /-- sum of the first `k` increments -/
